@@ -15,6 +15,11 @@ from pydbml.renderer.dbml.default import DefaultDBMLRenderer as _DBML
 from pydbml.exceptions import TableNotFoundError, DBMLError
 
 
+# what a DBML element renderer may refuse a degenerate model with (C17): a reference side that is empty or mixes
+# tables, a column or table that is detached, a multi-line name that cannot be double-quoted, an index without subject
+REFUSALS = ('DBMLError', 'IndexError', 'UnknownDatabaseError', 'TableNotFoundError', 'ValueError')
+
+
 # ------------------------------------------------------------------------------------------ names for callee results
 @abstract('str', heap=False)
 def escaped(text):
@@ -232,6 +237,7 @@ class render_enum_item:
 
 @contract('pydbml.renderer.dbml.default.enum:render_enum')
 class render_enum:
+    allowed = REFUSALS         # the element renderers' refusals of degenerate models propagate (C17)
     properties = ('C02', 'C14', 'C16')
     params = {'model': 'Enum'}
     pure = True
@@ -257,6 +263,8 @@ class dbml_render:
     params = {'cls': _DBML, 'model': 'Any'}
     pure = True
     ret = 'str'
+    # (assumed to return: the refusals of degenerate models it lets through — REFUSALS — are accounted for in the
+    # contracts of all its callers, which allow them, and by the callers' run-time twins on the real code)
 
     def returns(cls, model):
         return rendered_dbml(model)
@@ -284,6 +292,7 @@ def default_text(val):
 
 @contract('pydbml.renderer.dbml.default.column:default_to_str')
 class default_to_str:
+    allowed = REFUSALS         # the element renderers' refusals of degenerate models propagate (C17)
     properties = ('C02', 'C13')
     params = {'val': 'Union[str,int,bool,float,Expression]'}
     pure = True
@@ -353,7 +362,7 @@ class column_render_options:
     pure = True
     ret = 'str'
     # a reference with an empty or mixed-table first side, a table without database: refused by the model (C17)
-    allowed = ('DBMLError', 'IndexError', 'UnknownDatabaseError')
+    allowed = REFUSALS
 
     def requires_default_renderable(model):
         return model.table is not None
@@ -373,7 +382,7 @@ class dbml_render_column:
     params = {'model': 'Column'}
     pure = True
     ret = 'str'
-    allowed = ('DBMLError', 'IndexError', 'UnknownDatabaseError')     # the model's own refusals (C17), from get_refs
+    allowed = REFUSALS
 
     def requires_named(model):
         return model.table is not None and model.name is not None and model.type is not None and \
@@ -422,8 +431,11 @@ class index_render_options:
 
 @contract('pydbml.renderer.dbml.default.index:render_subjects')
 class index_render_subjects:
+    returns_defines = True
+    assume_at_call = ('ensures_some_subject',)
     """One subject is written bare; several are a parenthesised, comma-separated list in index order; a column is
     written by its (quoted if needed) name, an expression through the renderer, a plain string as it is (C02)."""
+    allowed = REFUSALS         # the element renderers' refusals of degenerate models propagate (C17)
     properties = ('C02', 'C10')
     params = {'source_subjects': 'List[Union[str,Column,Expression]]'}
     pure = True
@@ -432,12 +444,34 @@ class index_render_subjects:
     def requires_named(source_subjects):
         return all(not isinstance(x, Column) or x.name is not None for x in source_subjects)
 
-    def raises_IndexError(source_subjects):
-        return len(source_subjects) == 0
+    def returns(source_subjects):
+        return the_index_subjects(source_subjects)
 
-    def ensures_in_order(source_subjects, result):
-        return result == (('(' + ', '.join(index_subject_text(x) for x in source_subjects) + ')')
-                          if len(source_subjects) > 1 else ('' + index_subject_text(source_subjects[0])))
+    def ensures_some_subject(source_subjects, result):
+        # (an index without subject is refused with IndexError)
+        return len(source_subjects) > 0
+
+    def ensures_many_in_order(source_subjects, result):
+        return len(source_subjects) <= 1 or \
+            result == '(' + ', '.join(index_subject_text(x) for x in source_subjects) + ')'
+
+    def ensures_single_column(source_subjects, result):
+        return not (len(source_subjects) == 1 and isinstance(source_subjects[0], Column)) or \
+            result == bare_or_quoted_name(source_subjects[0].name)
+
+    def ensures_single_expression(source_subjects, result):
+        return not (len(source_subjects) == 1 and isinstance(source_subjects[0], Expression)) or \
+            result == rendered_dbml(source_subjects[0])
+
+    def ensures_single_text(source_subjects, result):
+        return not (len(source_subjects) == 1 and isinstance(source_subjects[0], str)) or \
+            result == '' + source_subjects[0]
+
+
+@abstract('str')
+def the_index_subjects(subjects):
+    from pydbml.renderer.dbml.default.index import render_subjects as f
+    return f(subjects)
 
 
 @abstract('str')
@@ -449,6 +483,7 @@ def the_index_options(ix):
 @contract('pydbml.renderer.dbml.default.index:render_index')
 class dbml_render_index:
     """comment lines, then the subjects, then the settings (C02, C14)."""
+    allowed = REFUSALS         # the element renderers' refusals of degenerate models propagate (C17)
     properties = ('C02', 'C14', 'C10')
     params = {'model': 'Index'}
     pure = True
@@ -457,14 +492,12 @@ class dbml_render_index:
     def requires_named(model):
         return all(not isinstance(x, Column) or x.name is not None for x in model.subjects)
 
-    def raises_IndexError(model):
-        return len(model.subjects) == 0
+    def ensures_some_subject(model, result):
+        return len(model.subjects) > 0
 
     def ensures_layout(model, result):
         return result == ((dbml_comment(model.comment) if model.comment else '')
-                          + (('(' + ', '.join(index_subject_text(x) for x in model.subjects) + ')')
-                             if len(model.subjects) > 1 else index_subject_text(model.subjects[0]))
-                          + the_index_options(model))
+                          + the_index_subjects(model.subjects) + the_index_options(model))
 
 
 # ------------------------------------------------------------------------------------------ references
@@ -637,6 +670,7 @@ def dbml_database(db):
 
 @contract('pydbml.renderer.dbml.default.renderer:DefaultDBMLRenderer.render_db')
 class dbml_render_db:
+    allowed = REFUSALS         # the element renderers' refusals of degenerate models propagate (C17)
     properties = ('C02', 'C16')
     params = {'cls': _DBML, 'db': 'Database'}
     pure = True
@@ -674,6 +708,7 @@ class dbml_render_header:
 @contract('pydbml.renderer.dbml.default.table:render_indexes')
 class dbml_render_indexes:
     """the indexes block lists every index's own rendering, in order, one per line (C02, C16)"""
+    allowed = REFUSALS         # the element renderers' refusals of degenerate models propagate (C17)
     properties = ('C02', 'C16')
     params = {'model': 'Table'}
     pure = True
@@ -687,6 +722,7 @@ class dbml_render_indexes:
 class dbml_render_table:
     """comment lines, header, every column's own rendering in order, the arbitrary properties exactly when the
     owning database allows them now (C15), the note, the indexes block (C02, C16)."""
+    allowed = REFUSALS         # the element renderers' refusals of degenerate models propagate (C17)
     properties = ('C02', 'C15', 'C16', 'C10')
     params = {'model': 'Table'}
     pure = True
@@ -710,6 +746,7 @@ class dbml_render_table:
 class dbml_render_table_group:
     """comment lines, `TableGroup "name"`, the colour setting, one line per member table (schema-qualified, in
     order), the note (C02, C16)."""
+    allowed = REFUSALS         # the element renderers' refusals of degenerate models propagate (C17)
     properties = ('C02', 'C16', 'C10')
     params = {'model': 'TableGroup'}
     pure = True
@@ -718,9 +755,9 @@ class dbml_render_table_group:
     def requires_named(model):
         return all(t.name is not None and t.schema is not None for t in model.items)
 
-    def raises_ValueError(model):
-        # a name with a line break cannot be written between double quotes (not producible by the parser)
-        return '\n' in model.name
+    def ensures_one_line_name(model, result):
+        # a name with a line break cannot be written between double quotes: refused with ValueError
+        return '\n' not in model.name
 
     def ensures_layout(model, result):
         return result == (
@@ -756,13 +793,14 @@ def the_project_items(items):
 
 @contract('pydbml.renderer.dbml.default.project:render_project')
 class dbml_render_project:
+    allowed = REFUSALS         # the element renderers' refusals of degenerate models propagate (C17)
     properties = ('C02', 'C16', 'C10')
     params = {'model': 'Project'}
     pure = True
     ret = 'str'
 
-    def raises_ValueError(model):
-        return '\n' in model.name
+    def ensures_one_line_name(model, result):
+        return '\n' not in model.name
 
     def ensures_layout(model, result):
         return result == (
